@@ -10,6 +10,7 @@ import (
 	"os"
 	"sort"
 	"strings"
+	"sync/atomic"
 	"time"
 )
 
@@ -80,6 +81,7 @@ type Ctx struct {
 	Journal   bool
 	Replaying bool
 	deadline  time.Time
+	ticks     int64
 	rep       Report
 	distinct  map[string]struct{}
 }
@@ -98,6 +100,13 @@ func NewCtx(tier string, shard, n int, seed int64, budget time.Duration) *Ctx {
 	return c
 }
 
+// progress is a number that changes whenever the worker gets something done
+// (the parent's hang watchdog looks at it).
+func (c *Ctx) progress() int64 { return atomic.LoadInt64(&c.ticks) }
+
+// Tick marks progress that no counter shows (long setup phases).
+func (c *Ctx) Tick() { atomic.AddInt64(&c.ticks, 1) }
+
 // Quick reports whether the tier is quick.
 func (c *Ctx) Quick() bool { return c.Tier != "thorough" }
 
@@ -113,10 +122,16 @@ func (c *Ctx) Pick(q, t int) int {
 func (c *Ctx) Mine(i int) bool { return c.NShards <= 1 || i%c.NShards == c.Shard }
 
 // Add bumps a named counter.
-func (c *Ctx) Add(key string, n int64) { c.rep.Counters[key] += n }
+func (c *Ctx) Add(key string, n int64) {
+	c.rep.Counters[key] += n
+	atomic.AddInt64(&c.ticks, 1)
+}
 
 // Eval counts one evaluation.
-func (c *Ctx) Eval() { c.rep.Counters["evaluations"]++ }
+func (c *Ctx) Eval() {
+	c.rep.Counters["evaluations"]++
+	atomic.AddInt64(&c.ticks, 1)
+}
 
 // Nontrivial counts a distinct non-trivial case; the caller guarantees
 // distinctness (cases are enumerated without repetition).
@@ -154,6 +169,7 @@ func (c *Ctx) HarnessError(format string, args ...any) {
 // Expired reports whether the soft deadline has passed; the caller stops
 // expanding and the run is marked non-exhaustive.
 func (c *Ctx) Expired(what string) bool {
+	atomic.AddInt64(&c.ticks, 1)
 	if c.deadline.IsZero() || time.Now().Before(c.deadline) {
 		return false
 	}
